@@ -33,16 +33,45 @@ func triOf(id int) *sdf.Triangle3 {
 	return &sdf.Triangle3{v3.Vec{X: a, Y: b, Z: 0}, v3.Vec{X: a + 1, Y: b, Z: 0}, v3.Vec{X: a, Y: b + 1, Z: 1}}
 }
 
+// sliverOf is item id as a needle: its second vertex differs from the first
+// by 2^-30 in X (kind 1: distinct in float64, the same point in float32, as
+// the facets of a finely meshed part far from the origin are) or not at all
+// (kind 2). It is still a triangle the renderer wrote, and it still carries
+// its id in vertices 0 and 2.
+func sliverOf(id, kind int) *sdf.Triangle3 {
+	a, b := float64(id%1000), float64(id/1000)
+	e := 0.0
+	if kind == 1 {
+		e = 1.0 / (1 << 30)
+	}
+	return &sdf.Triangle3{v3.Vec{X: a + 1, Y: b, Z: 0}, v3.Vec{X: a + 1 + e, Y: b, Z: 0}, v3.Vec{X: a + 1, Y: b + 1, Z: 1}}
+}
+
+// isSliver: every Sliver-th item of a script is a needle.
+func (s *script) item(id int) *sdf.Triangle3 {
+	if s.Sliver > 0 && id%s.Sliver == 0 {
+		return sliverOf(id, 1+(id/s.Sliver)%2)
+	}
+	return triOf(id)
+}
+
 // triID decodes a triangle read back from a sink; ok=false: not one of ours.
 func triID(v [3][3]float64) (int, bool) {
 	a, b := v[0][0], v[0][1]
-	if a != math.Trunc(a) || b != math.Trunc(b) || a < 0 || a > 999 || b < 0 || b > 1e6 {
+	if a != math.Trunc(a) || b != math.Trunc(b) || a < 0 || a > 1000 || b < 0 || b > 1e6 {
 		return 0, false
 	}
-	if v[0][2] != 0 || v[1] != [3]float64{a + 1, b, 0} || v[2] != [3]float64{a, b + 1, 1} {
+	if v[0][2] != 0 || v[2] != [3]float64{a, b + 1, 1} {
 		return 0, false
 	}
-	return int(a) + 1000*int(b), true
+	if v[1] == [3]float64{a + 1, b, 0} {
+		return int(a) + 1000*int(b), true
+	}
+	// a needle (sliverOf): X is shifted by one
+	if a >= 1 && (v[1] == [3]float64{a, b, 0} || v[1] == [3]float64{a + 1.0/(1<<30), b, 0}) {
+		return int(a) - 1 + 1000*int(b), true
+	}
+	return 0, false
 }
 
 // the segment carries its id in its extent only, so that the SVG origin shift
@@ -128,6 +157,7 @@ type script struct {
 	Batches  [][]int `json:"batches"`
 	Yield    []int   `json:"yield"`     // producer p yields the processor after every Yield[p]-th write (0: never)
 	NilEmpty bool    `json:"nil_empty"` // empty batches are nil slices (as mcToTriangles returns) rather than empty ones
+	Sliver   int     `json:"sliver,omitempty"` // triangles only: every Sliver-th item is a needle (see sliverOf); 0: none
 }
 
 func (s *script) totals() (bases []int, total int) {
@@ -176,7 +206,7 @@ func (r *scripted3) Render(_ sdf.SDF3, out sdf.Triangle3Writer) {
 				batch = make([]*sdf.Triangle3, b)
 			}
 			for k := range batch {
-				batch[k] = triOf(id)
+				batch[k] = r.s.item(id)
 				id++
 			}
 			out.Write(batch)
@@ -680,6 +710,9 @@ func drawScript(t *rapid.T, dim int) (*script, []string) {
 		np = rapid.IntRange(2, 8).Draw(t, "producers")
 	}
 	s.NilEmpty = rapid.Bool().Draw(t, "nil-empty")
+	if dim == 3 && rapid.IntRange(0, 2).Draw(t, "needles") == 0 {
+		s.Sliver = rapid.SampledFrom([]int{1, 2, 3, 7, 50}).Draw(t, "every")
+	}
 	budget := maxTotal()
 	var labels []string
 	for p := 0; p < np; p++ {
@@ -756,6 +789,9 @@ func classify(s *script, T int) (nt bool, labels []string) {
 		nt = true
 	}
 	labels = append(labels, fmt.Sprintf("producers=%d", len(s.Batches)))
+	if s.Dim == 3 {
+		labels = append(labels, fmt.Sprintf("has-needle-triangles=%v", s.Sliver > 0 && total > 0))
+	}
 	return
 }
 
@@ -772,7 +808,7 @@ func runScript(t ev.TB, rec *ev.Rec, s *script, extra []string) {
 	for i := range labels {
 		labels[i] = pre + labels[i]
 	}
-	rec.Case(nt, ev.Key(s.Dim, s.Sink, s.Batches, s.Yield, s.NilEmpty), labels...)
+	rec.Case(nt, ev.Key(s.Dim, s.Sink, s.Batches, s.Yield, s.NilEmpty, s.Sliver), labels...)
 	_, total := s.totals()
 	if total <= 600 {
 		rec.Sample(pre+s.Sink, s)
